@@ -74,7 +74,7 @@ theorem spec_agree (ms : List SMod) (hashes : List (Nat × List Export)) (s : Sp
   rw [this]
   exact hs.revEq
 
-theorem imports_agree (ms : List SMod) (hashes : List (Nat × List Export)) (specs : List Spec)
+theorem imports_agree_flat (ms : List SMod) (hashes : List (Nat × List Export)) (specs : List Spec)
     (hT : ∀ s ∈ specs, ∃ h, hashes.lookup s.target = some h ∧
       h.map (fun e => (e.name, e.val)) = sExports ms s.target)
     (hC : ∀ s ∈ specs, s.canonical2 (expNames ms) = true) :
@@ -91,6 +91,67 @@ theorem imports_agree (ms : List SMod) (hashes : List (Nat × List Export)) (spe
     exact hr
   · obtain ⟨l, hl, _⟩ := spec_agree ms hashes s (hT s hs) (hC s hs)
     exact ⟨l, hl⟩
+
+/-- With the modifiers composed the flat machine reads the same lists as S, entry by entry. -/
+theorem spec_agree_compose (ms : List SMod) (hashes : List (Nat × List Export)) (s : Spec)
+    (hT : ∃ h, hashes.lookup s.target = some h ∧ h.map (fun e => (e.name, e.val)) = sExports ms s.target)
+    (l : List (Name × Val)) (hl : s.importsS (sExports ms) = some l) :
+    ∃ L, s.importsS (hashPairs hashes) = some L ∧ L.map (fun i => (i.1, i.2.val)) = l := by
+  obtain ⟨h, hh, hmap⟩ := hT
+  have hnat := importsS_map Export.val (hashPairs hashes) s
+  have hcongr : s.importsS (fun m => (hashPairs hashes m).map fun e => (e.1, e.2.val)) =
+      s.importsS (sExports ms) := by
+    apply importsS_congr
+    simp only [hashPairs, hh, Option.getD_some, List.map_map]
+    rw [← hmap]
+    rfl
+  rw [hcongr, hl] at hnat
+  cases hL : s.importsS (hashPairs hashes) with
+  | none => rw [hL] at hnat; simp at hnat
+  | some L =>
+    rw [hL] at hnat
+    simp only [Option.map_some, Option.some.injEq] at hnat
+    exact ⟨L, rfl, hnat.symm⟩
+
+theorem imports_agree_compose (ms : List SMod) (hashes : List (Nat × List Export)) :
+    ∀ (specs : List Spec) (acc : List (Name × Export)),
+    (∀ s ∈ specs, ∃ h, hashes.lookup s.target = some h ∧
+      h.map (fun e => (e.name, e.val)) = sExports ms s.target) →
+    (∀ s ∈ specs, ∃ l, s.importsS (sExports ms) = some l) →
+    ∃ imps, specs.foldl (mStepC hashes) (some acc) = some (acc ++ imps) ∧
+      imps.map (fun i => (i.1, i.2.val)) = sImports (sExports ms) specs := by
+  intro specs
+  induction specs with
+  | nil => intro acc _ _; exact ⟨[], by simp, by simp [sImports]⟩
+  | cons s specs ih =>
+    intro acc hT hS
+    obtain ⟨l, hl⟩ := hS s (by simp)
+    obtain ⟨L, hL, hLl⟩ := spec_agree_compose ms hashes s (hT s (by simp)) l hl
+    obtain ⟨imps, hfold, hmap⟩ := ih (acc ++ L) (fun x hx => hT x (by simp [hx])) (fun x hx => hS x (by simp [hx]))
+    refine ⟨L ++ imps, ?_, ?_⟩
+    · simp only [List.foldl_cons, mStepC, hL]
+      rw [hfold, List.append_assoc]
+    · simp only [List.map_append, hLl, hmap, sImports, List.flatMap_cons, hl, Option.getD_some]
+
+theorem imports_agree (compose : Bool) (ms : List SMod) (hashes : List (Nat × List Export)) (specs : List Spec)
+    (hT : ∀ s ∈ specs, ∃ h, hashes.lookup s.target = some h ∧
+      h.map (fun e => (e.name, e.val)) = sExports ms s.target)
+    (hC : ∀ s ∈ specs, specOK compose ms s = true) :
+    ∃ imps, mImports compose hashes specs = some imps ∧
+      RevEq (imps.map fun i => (i.1, i.2.val)) (sImports (sExports ms) specs) ∧
+      ∀ s ∈ specs, ∃ l, s.importsS (sExports ms) = some l := by
+  cases compose with
+  | false => exact imports_agree_flat ms hashes specs hT (fun s hs => by simpa [specOK] using hC s hs)
+  | true =>
+    have hS : ∀ s ∈ specs, ∃ l, s.importsS (sExports ms) = some l := by
+      intro s hs
+      have := hC s hs
+      simp only [specOK, if_true] at this
+      exact Option.isSome_iff_exists.mp this
+    obtain ⟨imps, hfold, hmap⟩ := imports_agree_compose ms hashes specs [] hT hS
+    refine ⟨imps, by simpa [mImports] using hfold, ?_, hS⟩
+    rw [hmap]
+    exact RevEq.refl _
 
 /-! ## S's module in normal form -/
 
@@ -152,14 +213,14 @@ theorem tbl2_lookup (k : Nat) (G : List Name) (imps : List (Name × Export)) (de
 /-- **One module body.**  If the modules it requires are what S says they are, its require specs are in the
 fragment and it refers only to names bound in it, then its body runs, afterwards the module is what S says it
 is, and nothing but its own mangled keys changed. -/
-theorem runModule_ok {g : Graph} (hwf : g.wf = true) (fix : Fix) (hc : fix.compose = false)
+theorem runModule_ok {g : Graph} (hwf : g.wf = true) (fix : Fix)
     (hci : fix.contractImports = true) (st : MState) (k : Nat)
     (hT : ∀ s ∈ (g.mod k).reqs, ModOK (sBuild g) st s.target)
-    (hG : modGuard g (sBuild g) k = true) :
+    (hG : modGuard fix.compose g (sBuild g) k = true) :
     ∃ st', runModule fix g st k = some st' ∧ ModOK (sBuild g) st' k ∧ Frame [k] st st' := by
   simp only [modGuard, Bool.and_eq_true, List.all_eq_true, List.mem_append] at hG
   obtain ⟨hcan, hclosed⟩ := hG
-  obtain ⟨imps, himps, hrev, hall⟩ := imports_agree (sBuild g) st.hashes (g.mod k).reqs
+  obtain ⟨imps, himps, hrev, hall⟩ := imports_agree fix.compose (sBuild g) st.hashes (g.mod k).reqs
     (fun s hs => (hT s hs).hash) hcan
   obtain ⟨henv, hexp, _⟩ := senv_eq hwf k hall
   -- the set `globals` of the mangler
@@ -199,12 +260,12 @@ theorem runModule_ok {g : Graph} (hwf : g.wf = true) (fix : Fix) (hc : fix.compo
   cases hrun : runModule fix g st k with
   | none =>
     unfold runModule at hrun
-    simp [hc, himps] at hrun
+    simp [himps] at hrun
   | some st' =>
     refine ⟨st', rfl, ?_, ?_⟩
     · -- ModOK
       unfold runModule at hrun
-      simp only [hc, himps, hglob, Option.some.injEq] at hrun
+      simp only [himps, hglob, Option.some.injEq] at hrun
       subst hrun
       refine ⟨⟨_, lookup_cons_self k _ _, hGmem⟩, ?_, ⟨_, lookup_cons_self k _ _, ?_⟩⟩
       · exact htbl
@@ -219,10 +280,10 @@ theorem runModule_ok {g : Graph} (hwf : g.wf = true) (fix : Fix) (hc : fix.compo
         cases (senv (sBuild g) k).lookup p.name <;> rfl
     · -- Frame
       obtain ⟨imps', himps', hkeep⟩ := runModule_tbl fix g st st' k hrun
-      rw [hc, himps] at himps'
+      rw [himps] at himps'
       cases himps'
       unfold runModule at hrun
-      simp only [hc, himps, hglob, Option.some.injEq] at hrun
+      simp only [himps, hglob, Option.some.injEq] at hrun
       refine ⟨?_, ?_, ?_, ?_, ?_, ?_, ?_, ?_⟩
       · intro key hkey
         apply hkeep
@@ -264,9 +325,9 @@ theorem runModule_ok {g : Graph} (hwf : g.wf = true) (fix : Fix) (hc : fix.compo
         · exact h e he
 
 /-- **A list of module bodies in dependency order.** -/
-theorem runModules_ok {g : Graph} (hwf : g.wf = true) (fix : Fix) (hc : fix.compose = false)
+theorem runModules_ok {g : Graph} (hwf : g.wf = true) (fix : Fix)
     (hci : fix.contractImports = true) (A : List Nat)
-    (hG : ∀ k, modGuard g (sBuild g) k = true) :
+    (hG : ∀ k, modGuard fix.compose g (sBuild g) k = true) :
     ∀ (em before : List Nat) (st : MState), Ordered g A before em →
       (∀ x, x ∈ A ∨ x ∈ before → ModOK (sBuild g) st x) →
       ∃ st', runModules fix g st em = some st' ∧
@@ -281,7 +342,7 @@ theorem runModules_ok {g : Graph} (hwf : g.wf = true) (fix : Fix) (hc : fix.comp
     have hT : ∀ s ∈ (g.mod x).reqs, ModOK (sBuild g) st s.target := by
       intro s hs
       exact h _ (hord.1 s.target (List.mem_map.mpr ⟨s, hs, rfl⟩))
-    obtain ⟨st1, hrun1, hok1, hf1⟩ := runModule_ok hwf fix hc hci st x hT (hG x)
+    obtain ⟨st1, hrun1, hok1, hf1⟩ := runModule_ok hwf fix hci st x hT (hG x)
     have h1 : ∀ y, y ∈ A ∨ y ∈ before ++ [x] → ModOK (sBuild g) st1 y := by
       intro y hy
       by_cases hyx : y = x
